@@ -62,8 +62,13 @@ ASSUMPTIONS = [
     'the shared handle is opened from a path (a caller-supplied open file '
     'object has one cursor by construction)',
 ]
-SHRINK_BUDGET = 150
+SHRINK_BUDGET = 500
 _CODES = None
+
+
+def _dense(case):
+    import os
+    return bool(case.get('dense')) or os.environ.get('VERIF_DENSE') == '1'
 
 
 def codes():
@@ -140,7 +145,7 @@ def gen_op(rng, cfg, nrg, nrows, partitioned, v2=False, extras=()):
     return op
 
 
-DS_SHARE = 8        # consecutive run indices that share one dataset
+DS_SHARE = 4        # consecutive run indices that share one dataset
 
 
 def generate(seed, idx, tier):
@@ -164,7 +169,7 @@ def generate(seed, idx, tier):
     # categorical column carries its own labels each time (a different
     # dictionary page per row group)
     build = drng.choice(('single', 'appended'))
-    mode = 'write' if rng.random() < 0.12 else 'read'
+    mode = 'write' if rng.random() < 0.18 else 'read'
     cfg = rng.choice(('A', 'B', 'B'))
     nthreads = rng.choice((2, 2, 3, 3, 4, 4, 4, 6, 8, 16))
     threads = []
@@ -186,9 +191,12 @@ def generate(seed, idx, tier):
                              'vseed': rng.randrange(2 ** 31),
                              'nrows': rng.randrange(3, 30)}])
     r = srng.random()
-    if r < 0.7:
+    if r < 0.45:
         strategy = ['random', srng.choice((0.01, 0.02, 0.02, 0.05, 0.1,
                                            0.3))]
+    elif r < 0.7:
+        strategy = ['fair', srng.choice((0.1, 0.3, 0.6)),
+                    srng.choice((0, 30, 300, 3000))]
     elif r < 0.82:
         strategy = ['pct', srng.choice((1, 2, 3))]
     elif r < 0.92:
@@ -201,7 +209,10 @@ def generate(seed, idx, tier):
             'build': build,
             'mode': mode, 'cfg': cfg, 'threads': threads,
             'strategy': strategy, 'sched_seed': srng.randrange(2 ** 31),
-            'conc_first': srng.random() < 0.5}
+            'conc_first': srng.random() < 0.5,
+            # a fifth of the smaller runs also pre-empts between any two
+            # source lines of the package (see sim/sched.py: dense)
+            'dense': nthreads <= 4 and srng.random() < 0.35}
 
 
 # ------------------------------------------------------------------- dataset
@@ -448,11 +459,11 @@ def execute(case):
             return fn
         strategy = case['strategy']
         if 'schedule' in case:
-            sch = S.Scheduler(('replay', case['schedule']))
+            sch = S.Scheduler(('replay', case['schedule']), dense=_dense(case))
         elif strategy[0] == 'pct' and conc_first:
             sch = S.Scheduler(('pct', strategy[1], 4000 * sum(
                 len(o) for o in case['threads'])), seed=case['sched_seed'],
-                nthreads=len(case['threads']))
+                nthreads=len(case['threads']), dense=_dense(case))
         elif strategy[0] == 'pct':
             c = S.Counter()
             c.run(codes(), lambda: [run_op(D.ParquetFile(path, fs=fs), op)
@@ -462,10 +473,10 @@ def execute(case):
             shared = D.ParquetFile(path, fs=fs)
             sch = S.Scheduler(('pct', strategy[1], horizon),
                               seed=case['sched_seed'],
-                              nthreads=len(case['threads']))
+                              nthreads=len(case['threads']), dense=_dense(case))
         else:
             sch = S.Scheduler(tuple(strategy), seed=case['sched_seed'],
-                              nthreads=len(case['threads']))
+                              nthreads=len(case['threads']), dense=_dense(case))
         fs.io_hook = sch.io_point
         sch.install(codes())
         try:
@@ -636,14 +647,14 @@ def execute_writers(case, fs, path, res, violation, bump):
     con.mkdirs('/w/out')
     fmd = make_fmd()
     if 'schedule' in case:
-        sch = S.Scheduler(('replay', case['schedule']))
+        sch = S.Scheduler(('replay', case['schedule']), dense=_dense(case))
     elif case['strategy'][0] == 'pct':
         sch = S.Scheduler(('pct', case['strategy'][1], 3000),
                           seed=case['sched_seed'],
-                          nthreads=len(case['threads']))
+                          nthreads=len(case['threads']), dense=_dense(case))
     else:
         sch = S.Scheduler(tuple(case['strategy']), seed=case['sched_seed'],
-                          nthreads=len(case['threads']))
+                          nthreads=len(case['threads']), dense=_dense(case))
     con.io_hook = sch.io_point
     sch.install(codes())
     try:
@@ -695,12 +706,6 @@ def execute_writers(case, fs, path, res, violation, bump):
 
 def shrink_candidates(case):
     sc = case.get('schedule')
-    if sc:
-        sw = sc['switches']
-        for sub in drop_each(sw):
-            c = copy.deepcopy(case)
-            c['schedule']['switches'] = [list(x) for x in sub]
-            yield c
     # fewer threads (tids above the dropped one shift down)
     n = len(case['threads'])
     if n > 2:
@@ -717,6 +722,12 @@ def shrink_candidates(case):
                                           if x != k]
                 c['schedule']['first'] = m(sc['first']) \
                     if sc['first'] != k else 0
+            yield c
+    if sc:
+        sw = sc['switches']
+        for sub in drop_each(sw):
+            c = copy.deepcopy(case)
+            c['schedule']['switches'] = [list(x) for x in sub]
             yield c
     # fewer operations per thread
     for t, ops in enumerate(case['threads']):
